@@ -198,6 +198,9 @@ type Conn struct {
 	NClose    int
 	chunkMode int
 	Written   []byte // everything accepted by Write on this end
+	OnWrite   func(p []byte, k int) // called at the start of every Write call (no lock held)
+	BlockedAt time.Duration        // simulated time at which a WriteBlockAt fault first blocked (0 = never)
+	FaultAt   time.Duration        // simulated time of the first injected / timed-out write failure (0 = never)
 }
 
 func (w *World) newPair(kind string, capacity int) (a, b *Conn) {
@@ -349,9 +352,17 @@ func (c *Conn) Write(p []byte) (int, error) {
 	f := c.Faults
 	c.mu.Unlock()
 	rec("net", c.Name+" write-call", int64(c.ID), int64(len(p)), int64(k))
+	if cb := c.OnWrite; cb != nil {
+		cb(p, k)
+	}
 	if f.WriteErrAt > 0 && (k == f.WriteErrAt || (k > f.WriteErrAt && !f.WriteErrOnce)) {
 		dsim.Probe("fault:write-error")
 		rec("net", c.Name+" write-fault", int64(c.ID), int64(k))
+		c.mu.Lock()
+		if c.FaultAt == 0 {
+			c.FaultAt = dsim.Now() + 1
+		}
+		c.mu.Unlock()
 		return 0, f.WriteErr
 	}
 	blockFault := f.WriteBlockAt > 0 && k >= f.WriteBlockAt
@@ -392,6 +403,11 @@ func (c *Conn) Write(p []byte) (int, error) {
 		}
 		if blockFault {
 			dsim.Probe("fault:write-block")
+			c.mu.Lock()
+			if c.BlockedAt == 0 {
+				c.BlockedAt = dsim.Now() + 1
+			}
+			c.mu.Unlock()
 		} else {
 			dsim.Probe("cov:write-backpressure")
 		}
@@ -401,8 +417,12 @@ func (c *Conn) Write(p []byte) (int, error) {
 		}
 		if timeout {
 			rec("net", c.Name+" write timeout", int64(c.ID), int64(written))
+			dsim.Probe("fault:write-timeout")
 			c.mu.Lock()
 			c.Written = append(c.Written, p[:written]...)
+			if c.FaultAt == 0 {
+				c.FaultAt = dsim.Now() + 1
+			}
 			c.mu.Unlock()
 			return written, timeoutError("write", c.Kind)
 		}
@@ -471,6 +491,20 @@ func (c *Conn) Reset() {
 		poke(h.wwake)
 	}
 	rec("net", c.Name+" reset", int64(c.ID))
+}
+
+// Times returns when a block fault first blocked and when a write first failed.
+func (c *Conn) Times() (blockedAt, faultAt time.Duration) {
+	c.mu.Lock()
+	defer c.mu.Unlock()
+	return c.BlockedAt, c.FaultAt
+}
+
+// SetFaults installs faults on this end.
+func (c *Conn) SetFaults(f Faults) {
+	c.mu.Lock()
+	c.Faults = f
+	c.mu.Unlock()
 }
 
 // Closed reports whether Close was called on this end.
